@@ -53,11 +53,12 @@ func (b *ctxBody) Read(p []byte) (int, error) {
 func (b *ctxBody) Close() error { return nil }
 
 type stub struct {
-	reqs      []captured
-	transport error // injected transport failure
-	readErr   error // injected body-read failure
-	truncated bool  // the response announces more bytes than arrive: the connection drops after respBody
-	respBody  string
+	reqs        []captured
+	transport   error // injected transport failure
+	readErr     error // injected body-read failure
+	truncated   bool  // the response announces more bytes than arrive: the connection drops after respBody
+	unannounced bool  // no Content-Length (-1: chunked / until close)
+	respBody    string
 }
 
 func (s *stub) RoundTrip(req *http.Request) (*http.Response, error) {
@@ -82,6 +83,9 @@ func (s *stub) RoundTrip(req *http.Request) (*http.Response, error) {
 	}
 	resp := &http.Response{StatusCode: 200, Status: "200 OK", Proto: "HTTP/1.1", ProtoMajor: 1, ProtoMinor: 1, Header: http.Header{},
 		Body: &ctxBody{ctx: req.Context(), r: strings.NewReader(s.respBody), fail: s.readErr}, Request: req, ContentLength: int64(len(s.respBody))}
+	if s.unannounced {
+		resp.ContentLength = -1
+	}
 	if s.truncated {
 		resp.ContentLength = int64(len(s.respBody)) + 100
 		resp.Body.(*ctxBody).failEOF = io.ErrUnexpectedEOF
@@ -284,7 +288,10 @@ func main() {
 		retainCase(ct, base)
 		inputs++
 		emptyResponseCase(ct, base)
+		largeResponseCase(ct, base, map[bool]int{false: 22, true: 25}[r.Tier == "thorough"])
 	}
+	inputs++
+	lateEvaluation(base)
 	r.Cov["states"] = inputs
 	r.Cov["transitions"] = evals
 	r.Cov["traces_validated_against_impl"] = evals
@@ -393,6 +400,92 @@ func emptyResponseCase(ct ctor, base string) {
 			bad("error-not-surfaced|empty-response", "%s: the deserializer failed on the empty body with %v; Err is %v", ct.name, decodeErr, resp.Err)
 		case !custom && resp.Err == nil:
 			bad("error-not-surfaced|empty-response", "%s: the default JSON decoder cannot decode an empty body, yet Err is nil", ct.name)
+		}
+	}
+}
+
+// lateEvaluation: the MonadIO of every constructor is built, the whole request timeout elapses (real clock: the library's
+// context deadlines are real), and only then it is evaluated, twice: each evaluation still issues exactly one request and
+// succeeds - the timeout budget belongs to an evaluation, not to the moment the call was described. The wait is 1.1 x the
+// timeout; a failure is re-tried once with a timeout five times longer before it is reported (a stalled machine is not a defect).
+func lateEvaluation(base string) {
+	for attempt, unit := range []time.Duration{time.Second, 5 * time.Second} {
+		type built struct {
+			ct  ctor
+			st  *stub
+			io  *fpgo.MonadIODef[*network.APIResponse[reply]]
+			tgt *reply
+		}
+		var bs []built
+		for _, ct := range ctors() {
+			st := &stub{respBody: `{"A":7}`}
+			h := network.NewSimpleHTTPWithClientAndInterceptors(&http.Client{Transport: st})
+			h.TimeoutMillisecond = int64(unit) // (the library reads the field as a time.Duration)
+			api := network.NewSimpleAPIWithSimpleHTTP(base, h)
+			var body interface{} = payload{A: 1, B: "b"}
+			if ct.kind == "multipart" {
+				body = &network.MultipartForm{Value: map[string][]string{"k": {"v"}}}
+			}
+			b := built{ct: ct, st: st, tgt: &reply{}}
+			if p := lib.Catch(func() { b.io = ct.mk(api, "x")(nil, body, b.tgt) }); p != "" {
+				bad("panic|build|late-evaluation", "%s: %s", ct.name, p)
+				return
+			}
+			bs = append(bs, b)
+		}
+		time.Sleep(unit + unit/10)
+		fail := ""
+		for _, b := range bs {
+			for ev := 1; ev <= 2 && fail == ""; ev++ {
+				evals++
+				var resp *network.APIResponse[reply]
+				if p := lib.Catch(func() { resp = b.io.Eval() }); p != "" {
+					fail = fmt.Sprintf("%s: evaluation %d: %s", b.ct.name, ev, p)
+				} else if len(b.st.reqs) != ev || resp == nil || resp.Err != nil {
+					fail = fmt.Sprintf("%s built, then evaluated %v later (request timeout %v): after evaluation %d the transport has seen %d request(s), Err=%v", b.ct.name, unit+unit/10, unit, ev, len(b.st.reqs), resp.Err)
+				}
+			}
+		}
+		if fail == "" {
+			return
+		}
+		if attempt == 1 {
+			bad("late-evaluation", "%s", fail)
+		}
+	}
+}
+
+// largeResponseCase: response bodies of 2^k-1, 2^k, 2^k+1 bytes up to 4 MiB (quick) / 32 MiB (thorough), with the length
+// announced (Content-Length) and not (-1): the deserializer receives exactly the bytes the transport delivered.
+func largeResponseCase(ct ctor, base string, topBits int) {
+	for k := 10; k <= topBits; k++ {
+		for _, n := range []int{1<<k - 1, 1 << k, 1<<k + 1} {
+			for _, announced := range []bool{true, false} {
+				pad := strings.Repeat("x", n-len(`{"A":7,"pad":""}`))
+				st := &stub{respBody: `{"A":7,"pad":"` + pad + `"}`, unannounced: !announced}
+				api := network.NewSimpleAPIWithSimpleHTTP(base, network.NewSimpleHTTPWithClientAndInterceptors(&http.Client{Transport: st}))
+				gotLen, same := -1, false
+				api.ResponseDeserializer = func(body []byte, target interface{}) (interface{}, error) {
+					gotLen, same = len(body), string(body) == st.respBody
+					return target, nil
+				}
+				var body interface{} = payload{A: 1, B: "b"}
+				if ct.kind == "multipart" {
+					body = &network.MultipartForm{Value: map[string][]string{"k": {"v"}}}
+				}
+				var resp *network.APIResponse[reply]
+				var t reply
+				evals++
+				inputs++
+				if p := lib.Catch(func() { resp = ct.mk(api, "x")(nil, body, &t).Eval() }); p != "" {
+					bad("panic|eval|large-response", "%s with a response body of %d bytes: %s", ct.name, n, p)
+					return
+				}
+				if resp.Err != nil || gotLen != n || !same {
+					bad("response-body|large-response", "%s: the transport delivered a body of %d bytes (Content-Length announced: %v); the deserializer received %d bytes (identical: %v), Err=%v", ct.name, n, announced, gotLen, same, resp.Err)
+					return
+				}
+			}
 		}
 	}
 }
